@@ -86,6 +86,9 @@ fn default_methods() -> BTreeMap<String, String> {
     m.insert("z".into(), "{0}.z".into());
     m.insert("dot".into(), "(dot {0} {1})".into());
     m.insert("is_empty".into(), "(List.isEmpty {0})".into());
+    m.insert("map".into(), "(List.map {1} {0})".into());
+    m.insert("filter".into(), "(List.filter {1} {0})".into());
+    m.insert("fold".into(), "(List.foldl {2} {1} {0})".into());
     m.insert("len".into(), "(List.length {0})".into());
     m
 }
@@ -323,6 +326,12 @@ impl<'a> Tr<'a> {
                     }
                     return Ok(ident(&n));
                 }
+                if full == "f64::min" {
+                    return Ok("fmin".into());
+                }
+                if full == "f64::max" {
+                    return Ok("fmax".into());
+                }
                 if full == "f64::EPSILON" {
                     return Ok("(feps : K)".into());
                 }
@@ -387,7 +396,7 @@ impl<'a> Tr<'a> {
             Expr::Index(i) => {
                 let base = self.expr(&i.expr)?;
                 let idx = self.expr(&i.index)?;
-                Ok(format!("(idx {} {})", base, idx))
+                Ok(format!("(listGet {} {})", base, idx))
             }
             Expr::Cast(c) => {
                 let inner = self.expr(&c.expr)?;
@@ -495,7 +504,34 @@ impl<'a> Tr<'a> {
                 let tyname = self.cfg.types.get(&name).cloned().unwrap_or(name);
                 Ok(format!("({{ {} : {} }})", fields.join(", "), tyname))
             }
-            Expr::Closure(_) => Err(format!("nested closure unsupported: `{}`", key)),
+            Expr::Closure(c) => {
+                if has_return_expr(&c.body) {
+                    return Err(format!("closure with `return` unsupported: `{}`", key));
+                }
+                let mut names = vec![];
+                let mut binds = String::new();
+                for (i, inp) in c.inputs.iter().enumerate() {
+                    match inp {
+                        Pat::Ident(pi) => names.push(ident(&pi.ident.to_string())),
+                        Pat::Type(pt) => match &*pt.pat {
+                            Pat::Ident(pi) => names.push(ident(&pi.ident.to_string())),
+                            other => {
+                                let n = format!("arg_{}", i);
+                                self.bind_pat(other, &n, &mut binds)?;
+                                names.push(n);
+                            }
+                        },
+                        Pat::Wild(_) => names.push(format!("_arg{}", i)),
+                        other => {
+                            let n = format!("arg_{}", i);
+                            self.bind_pat(other, &n, &mut binds)?;
+                            names.push(n);
+                        }
+                    }
+                }
+                let body = self.expr(&c.body)?;
+                Ok(format!("(fun {} =>\n{}{})", names.join(" "), binds, body))
+            }
             Expr::Return(_) => Err("`return` in expression position (internal: use expr_k)".into()),
             _ => Err(format!("unsupported expression `{}`", key)),
         }
@@ -516,15 +552,16 @@ impl<'a> Tr<'a> {
                 None => Ok("()".into()),
             },
             Expr::If(i) => {
-                if matches!(&*i.cond, Expr::Let(_)) {
-                    return Err(format!("`if let` unsupported: `{}`", tok(&*i.cond)));
-                }
-                let c = self.expr(&i.cond)?;
                 let a = self.stmts(&i.then_branch.stmts, k)?;
                 let b = match &i.else_branch {
                     Some((_, eb)) => self.expr_k(eb, k)?,
                     None => k("()".into())?,
                 };
+                if let Expr::Let(l) = &*i.cond {
+                    let (scrut, pat) = self.if_let_parts(l)?;
+                    return Ok(format!("(match {} with\n| {} =>\n{}\n| _ =>\n{})", scrut, pat, a, b));
+                }
+                let c = self.expr(&i.cond)?;
                 Ok(format!("(if {} then\n{}\nelse\n{})", c, a, b))
             }
             Expr::Block(b) => self.stmts(&b.block.stmts, k),
@@ -745,7 +782,13 @@ impl<'a> Tr<'a> {
                             Pat::Wild(_) => "_".to_string(),
                             _ => return Err("`for` pattern unsupported".into()),
                         };
-                        if as_range(&f.expr).is_none() {
+                        let literal = match as_range(&f.expr) {
+                            None => false,
+                            Some((lo, hi, _)) => {
+                                (int_lit(lo).is_some() || self.cfg.int_consts.contains_key(&tok(lo))) && (int_lit(hi).is_some() || self.cfg.int_consts.contains_key(&tok(hi)))
+                            }
+                        };
+                        if !literal {
                             return self.for_fold(f, rest, k);
                         }
                         let (lo, hi, incl) = as_range(&f.expr).ok_or_else(|| format!("`for` over `{}` unsupported (only literal ranges are unrolled)", tok(&*f.expr)))?;
@@ -823,7 +866,14 @@ impl<'a> Tr<'a> {
         if vars.is_empty() {
             return self.stmts(rest, k);
         }
-        let iter = self.expr(&f.expr)?;
+        let iter = match as_range(&f.expr) {
+            Some((lo, hi, incl)) => {
+                let lo = self.expr(lo)?;
+                let hi = self.expr(hi)?;
+                if incl { format!("(List.range' {} (({} + 1) - {}))", lo, hi, lo) } else { format!("(List.range' {} ({} - {}))", lo, hi, lo) }
+            }
+            None => self.expr(&f.expr)?,
+        };
         self.ctr.set(self.ctr.get() + 1);
         let n = self.ctr.get();
         let st = format!("st_{}", n);
@@ -853,11 +903,22 @@ impl<'a> Tr<'a> {
     }
 
     /// statement-level `if` (unit valued): updates of outer variables are threaded through a tuple
-    fn if_stmt(&self, i: &ExprIf, rest: &[Stmt], k: K) -> R<String> {
-        if matches!(&*i.cond, Expr::Let(_)) {
-            return Err(format!("`if let` unsupported: `{}`", tok(&*i.cond)));
+    fn if_let_parts(&self, l: &ExprLet) -> R<(String, String)> {
+        let scrut = self.expr(&l.expr)?;
+        let pat = self.match_pat(&l.pat)?;
+        Ok((scrut, pat))
+    }
+
+    fn ite(&self, cond: &Expr, a: &str, b: &str) -> R<String> {
+        if let Expr::Let(l) = cond {
+            let (scrut, pat) = self.if_let_parts(l)?;
+            return Ok(format!("(match {} with\n| {} =>\n{}\n| _ =>\n{})", scrut, pat, a, b));
         }
-        let c = self.expr(&i.cond)?;
+        let c = self.expr(cond)?;
+        Ok(format!("(if {} then\n{}\nelse\n{})", c, a, b))
+    }
+
+    fn if_stmt(&self, i: &ExprIf, rest: &[Stmt], k: K) -> R<String> {
         let then_stmts = &i.then_branch.stmts;
         let else_stmts: Vec<Stmt> = match &i.else_branch {
             None => vec![],
@@ -875,7 +936,7 @@ impl<'a> Tr<'a> {
             b.extend(rest.iter().cloned());
             let a = self.stmts(&a, k)?;
             let b = self.stmts(&b, k)?;
-            return Ok(format!("(if {} then\n{}\nelse\n{})", c, a, b));
+            return self.ite(&i.cond, &a, &b);
         }
         let mut vars = vec![];
         assigned_vars(then_stmts, &mut vars);
@@ -889,7 +950,7 @@ impl<'a> Tr<'a> {
             // no effect on the value computed
             return self.stmts(rest, k);
         }
-        self.rebind(&vars, &format!("(if {} then\n{}\nelse\n{})", c, a, b), &mut out);
+        self.rebind(&vars, &self.ite(&i.cond, &a, &b)?, &mut out);
         out.push_str(&self.stmts(rest, k)?);
         Ok(out)
     }
